@@ -194,8 +194,14 @@ func runVM(in *vmInput) (hx.Case, error) {
 		}
 		var queue []due
 		cursor, delay, delayOf, seen, nd := 0, 0, -1, 0, 0
+		stallUntil := uint64(0)
+		d.Hold = map[string]bool{}
 		d.TickFn = func(dd *memdrv.Driver) bool {
-			progress := dd.Drain()
+			// an "s" step makes the driver leave the answers to its requests on the
+			// port for a window (Top-port back-pressure on the top module)
+			stalled := dd.Cycle() <= stallUntil && stallUntil > 0
+			dd.Hold["Xl"], dd.Hold["Top"] = stalled, stalled
+			progress := dd.Drain() || stalled
 			// the driver is the memory below the translator and the remote owner of
 			// the pages of device 2: answer what arrives, a few cycles later
 			for ; seen < len(dd.Log); seen++ {
@@ -244,6 +250,12 @@ func runVM(in *vmInput) (hx.Case, error) {
 			}
 			for cursor < len(in.Script) {
 				op := in.Script[cursor]
+				if op.K == "s" {
+					stallUntil = dd.Cycle() + uint64(op.Delay)
+					cursor++
+					progress = true
+					continue
+				}
 				if op.Delay > 0 {
 					if delayOf != cursor {
 						delayOf, delay = cursor, op.Delay
@@ -306,7 +318,7 @@ func runVM(in *vmInput) (hx.Case, error) {
 	if err != nil {
 		return hx.Case{}, err
 	}
-	mid, seen, total := false, 0, 0
+	mid, stall, seen, total := false, false, 0, 0
 	for _, op := range in.Script {
 		if op.K == "x" {
 			total++
@@ -315,8 +327,11 @@ func runVM(in *vmInput) (hx.Case, error) {
 	for _, op := range in.Script {
 		if op.K == "x" {
 			seen++
-		} else if op.Cmd == "reset" && seen > 0 && seen < total {
+		} else if op.K == "c" && op.Cmd == "reset" && seen > 0 && seen < total {
 			mid = true
+		}
+		if op.K == "s" {
+			stall = true
 		}
 	}
 	c.Tags = []string{"case:vm", fmt.Sprintf("tlbs:%d", len(in.TLBs))}
@@ -333,6 +348,9 @@ func runVM(in *vmInput) (hx.Case, error) {
 	}
 	if mid {
 		c.Tags = append(c.Tags, "reset:mid-traffic")
+	}
+	if stall {
+		c.Tags = append(c.Tags, "rsp-stall")
 	}
 	if !quiescent {
 		c.Tags = append(c.Tags, "script-incomplete")
@@ -467,6 +485,10 @@ func genVM(r *hx.Rand, tier string) input {
 		traffic(4 + r.Intn(12))
 		if ph == phases-1 {
 			break
+		}
+		if r.Chance(1, 3) { // the requester leaves the answers on its port for a while
+			in.Script = append(in.Script, VMOp{K: "s", Delay: 8 + r.Intn(40)})
+			traffic(r.Intn(6))
 		}
 		switch r.Pick(4, 2, 2, 2) {
 		case 0: // reset the top k modules in the middle of traffic
